@@ -147,6 +147,13 @@ impl Parser<'_> {
         self.input.nth(n)
     }
 
+    /// Look at the n-th token ahead without spending fuel. Fuel detects a parser that inspects
+    /// the same position for ever; a scan over n = 0, 1, 2, .. makes progress by itself, and
+    /// charging it made long (valid) inputs look like a stuck parser.
+    pub fn lookahead(&mut self, n: usize) -> TokenKind {
+        self.input.nth(n)
+    }
+
     pub fn eof(&mut self) -> bool {
         self.input.eof()
     }
